@@ -80,8 +80,35 @@ def volume(rep, cov, tier, rng):
     cov["distinct_nontrivial"] = cov.get("distinct_nontrivial", 0) + total
 
 
+def overlong(rep, cov, tier, rng):
+    """sign::<set>::signature into caller buffers LONGER than SIGNBYTES (the slice API asks for 'at least'): the first SIGNBYTES bytes
+    must be a signature that verifies, the rest must be untouched"""
+    n = 0
+    for cp in ALL:
+        p = Par(cp)
+        r = crate([("keypair", cp, [bytes(rng.randrange(256) for _ in range(32))])])[0]
+        pk, sk = r[0], r[1]
+        for extra_len in (1, 8192 - p.sig):
+            for rand in (0, 1):
+                msg = bytes(rng.randrange(256) for _ in range(rng.choice([0, 33, 200])))
+                buf = bytes(rng.randrange(256) for _ in range(p.sig + extra_len))
+                tape = bytes(rng.randrange(256) for _ in range(64))
+                for dev in (True, False):
+                    s = crate([("signature", cp, [buf, msg, sk, rand, tape])], dev=dev)[0]
+                    n += 1
+                    ok = s is not None and len(s[0]) == len(buf) and s[0][p.sig:] == buf[p.sig:]
+                    v = crate([("verify", cp, [s[0][:p.sig], msg, pk])], dev=dev)[0] if ok else None
+                    if not ok or v is None or v[0] != 1:
+                        rep.violation("signature/%s into a caller buffer of SIGNBYTES+%d bytes: %s" %
+                                      (cp, extra_len, "the first SIGNBYTES bytes do not verify" if ok else "panicked or wrote beyond SIGNBYTES"),
+                                      {"cases": [{"fn": "signature", "copy": cp, "args": [fmt_arg(buf), fmt_arg(msg), fmt_arg(sk), str(rand), fmt_arg(tape)]}]}, True)
+    cov["over_long_buffer_round_trips"] = n
+    cov["evaluations"] = cov.get("evaluations", 0) + n
+
+
 def extra(rep, cov, tier, rng):
     volume(rep, cov, tier, rng)
+    overlong(rep, cov, tier, rng)
     n = 0
     hist = {}
     samples = []
